@@ -60,4 +60,53 @@ TEXTS["C05"] = {
     "level_note": NOTE_A + "; the reference reader (harness/common/rfc7230.h) is part of the trusted base",
 }
 
+TEXTS["C10"] = {
+    "engine": "seqx", "design_ref": "DESIGN.md §4 C10",
+    "technique": "exhaustive enumeration of all route tables up to T patterns x all paths up to 4 segments on the real "
+                 "SegmentTreeNode / Router, compared with a nondeterministic reference matcher; differential add/remove",
+    "level_text": "Every table of <=2 (thorough <=3) patterns over a 7-symbol segment alphabet and every path of <=4 "
+                  "segments is looked up in the real router; the answer must be one the reference matcher (the property's "
+                  "wording made executable) can produce. Router::route is exercised end to end for handler invocation, "
+                  "bindings, 405/Allow and 404. Exhaustive within the alphabet, where overlaps and shadowing are dense.",
+    "level_note": NOTE_A + "; the reference matcher is part of the trusted base; order among same-kind siblings is left open as the property leaves it",
+}
+TEXTS["C11"] = {
+    "engine": "seqx", "design_ref": "DESIGN.md §4 C11",
+    "technique": "exhaustive enumeration of all promise-API programs of K operations (each a linearisation of "
+                 "create/attach/settle events) executed on the real templates, compared with a reference interpreter",
+    "level_text": "All programs of exactly K operations (K=4 quick, 5 thorough) over create / then (5 continuation kinds x 3 "
+                  "rejection handlers) / whenAll / whenAllRange / whenAny / resolve / reject run on the real async.h; the "
+                  "multiset of continuation outcomes must equal the reference's, nothing runs twice, nothing escapes.",
+    "level_note": NOTE_A + "; what the property leaves open (derived promise after a non-rethrowing handler) is not compared",
+}
+TEXTS["C12"] = {
+    "engine": "vsched", "design_ref": "DESIGN.md §4 C12",
+    "technique": "stateless model checking of the real code: preemption-bounded DFS over all schedules of 2-3 real threads "
+                 "gated at hook points in async.h, plus the same schedules under ThreadSanitizer",
+    "level_text": "Nine settle-vs-attach scenarios; every schedule with <=2 preemptions (thorough: <=3, and all schedules for "
+                  "the 2-thread scenarios) is executed on the real Promise implementation and each continuation must run "
+                  "exactly once with the settled outcome; TSan sees the same serialised schedules without happens-before "
+                  "from the scheduler, so unsynchronised accesses are reported.",
+    "level_note": NOTE_B,
+}
+TEXTS["C13"] = {
+    "engine": "vsched", "design_ref": "DESIGN.md §4 C13",
+    "technique": "stateless model checking of the real queue: preemption-bounded DFS over all schedules of producers and "
+                 "one consumer, scheduling points at every atomic operation and eventfd read/write; deadlock = missed wake-up",
+    "level_text": "PollableQueue<int> with 1..3 real producer threads and a consumer that drains like the transport does; "
+                  "all schedules within the preemption bound are executed; loss, duplication, reordering and a consumer "
+                  "asleep with an item queued are detected per execution; a TSan pass repeats the schedules.",
+    "level_note": NOTE_B + "; scheduling points come from an atomic-operation shim and interposed eventfd I/O, so they do not depend on source hooks",
+}
+for pid, what in (("C16", "typed header values and name capitalisations"), ("C17", "cookies, attribute sets and Cookie headers"),
+                  ("C18", "media-type texts"), ("C19", "address and port texts"), ("C20", "byte strings, credentials and invalid Base64 texts")):
+    TEXTS[pid] = {
+        "engine": "seqx", "design_ref": "DESIGN.md §4 " + pid,
+        "technique": "bounded-exhaustive enumeration of " + what + " on the real code against an independent reference / round-trip oracle, ASan+UBSan as memory oracle",
+        "level_text": "Every input of the explicitly defined finite space (sizes in the evidence file) is evaluated on the real "
+                      "implementation; round-trip laws and rejection behaviour are checked on each, and exact-size unterminated "
+                      "buffers make any over-read a sanitizer report. Exhaustive within the stated alphabets and lengths.",
+        "level_note": NOTE_A,
+    }
+
 NOT_APPLICABLE = {}
